@@ -76,6 +76,20 @@ def query_problems(kv):
     return out
 
 
+def nan_problems(kv):
+    """NaN is not a node of the interval: must be refused, and the call must return"""
+    import props.c15 as c15
+    out = []
+    for q in (kv.span, kv.mult):
+        try:
+            r = impl(lambda: c15.with_timeout(lambda: q(float("nan")), 5))
+            if errkind(r) != "ValueError":
+                out.append("%s(nan) did not raise ValueError" % q.__name__)
+        except c15.Timeout:
+            out.append("%s(nan) did not return" % q.__name__)
+    return out
+
+
 def observe(kv):
     return dict(U=tuple(frac(x) for x in kv), degree=kv.degree, npts=kv.npts)
 
@@ -219,6 +233,9 @@ def run_case(ctx, case):
             other = obj
             if other is kv:
                 rec.violation("copy returned the same object", case, step=step)
+    bad = nan_problems(kv)
+    if bad:
+        rec.violation("query with NaN: " + "; ".join(bad), case, state=ser(observe(kv)))
     # split is non-mutating and returns well-formed pieces
     nodes = c.get("split")
     if nodes is not None:
